@@ -216,6 +216,59 @@ theorem builtin_rejects_non_list (other : Apply) (v : Val) (rest : List Val) (hv
   · cases he
     simp [callBuiltin, callEntry, inject, typecheck, PKind.checked, hv, catchTypeError]
 
+
+/-- the program `RETURN = sum_durations(merge_events_by_keys(query_bucket(b), keys));` -/
+def totalOfMerged (b : Str) (keys : List String) : Prog :=
+  [(returnName, .call (n "sum_durations") [.call (n "merge_events_by_keys")
+      [.call nameQueryBucket [.str b], .list (keys.map fun k => Expr.str k.toList)]])]
+
+/-- END TO END, in the model: the query `RETURN = sum_durations(merge_events_by_keys(query_bucket(b), keys));` denotes the
+    total duration of the events the windowed read of `b` returns — the reads of C03/C12, the call protocol, the `q2_*`
+    wrappers and C16's conservation law (`merge_total_duration`) composed into one statement about what the query yields -/
+theorem total_of_merged (r : Reads Data) (S E : Int) (other : Apply) (env : Ns) (b : Str) (keys : List String)
+    (evs out : List Event) (hq : queryBucket r (String.ofList b) S E = .ok evs)
+    (hm : mergeEventsByKeys evs keys = .ok out) :
+    denoteProg Registry.registry (fullApply r S E other) env (totalOfMerged b keys) =
+      .ok (encTd (sumDurations evs)) := by
+  have hsum : sumDurations out = sumDurations evs := by
+    rw [sumDurations_eq_durSum, sumDurations_eq_durSum]; exact AwProofs.C16.merge_total_duration evs keys out hm
+  -- the read
+  have hq' : denote Registry.registry (fullApply r S E other) (baseNs ++ env) (.call nameQueryBucket [.str b]) =
+      .ok (encEvs evs) := by
+    rw [call_denotes (fullApply r S E other) (baseNs ++ env) nameQueryBucket [.str b] _ [.str b] rfl (by simp [denoteList, denote, Except.bind, Except.map])]
+    simp [callBuiltin, callEntry, inject, typecheck, Entry.accepts, PKind.checked, fullApply, dsApply, nameQueryBucket, hq,
+      catchTypeError, encEvs, Pipeline.enc]
+  -- the merge
+  obtain ⟨em, hem, hcm⟩ := builtin_merge_events_by_keys other evs keys
+  have hm' : denote Registry.registry (fullApply r S E other) (baseNs ++ env)
+      (.call (n "merge_events_by_keys") [.call nameQueryBucket [.str b], .list (keys.map fun k => Expr.str k.toList)]) =
+      .ok (encEvs out) := by
+    rw [call_denotes (fullApply r S E other) (baseNs ++ env) _ _ em [encEvs evs, encStrs keys] hem
+      (by rw [denoteList, hq']; simp [denoteList, denote, denoteList_strs, Except.bind, Except.map, encStrs])]
+    rw [callBuiltin_fullApply r S E other em _ (by cases hem; decide), hcm, hm]
+  -- the sum
+  obtain ⟨es, hes, hcs⟩ := builtin_sum_durations other out
+  have hs' : denote Registry.registry (fullApply r S E other) (baseNs ++ env)
+      (.call (n "sum_durations") [.call (n "merge_events_by_keys")
+        [.call nameQueryBucket [.str b], .list (keys.map fun k => Expr.str k.toList)]]) = .ok (encTd (sumDurations evs)) := by
+    rw [call_denotes (fullApply r S E other) (baseNs ++ env) _ _ es [encEvs out] hes
+      (by rw [denoteList, hm']; simp [denoteList, Except.bind, Except.map])]
+    rw [callBuiltin_fullApply r S E other es _ (by cases hes; decide), hcs, hsum]
+  simp only [denoteProg, totalOfMerged, denoteStmts, hs', Except.bind, get_set_self]
+
+/-- … and so does its TEXT, whatever the spacing, line breaks and quote style (`query_means_text`) -/
+theorem total_of_merged_text (r : Reads Data) (S E : Int) (other : Apply) (env : Ns) (b : Str) (keys : List String)
+    (evs out : List Event) (l : Layout) (hw : WFProg (totalOfMerged b keys)) (hl : LayoutOK l)
+    (hq : queryBucket r (String.ofList b) S E = .ok evs) (hm : mergeEventsByKeys evs keys = .ok out) :
+    runQuery Registry.registry (fullApply r S E other) env (render (totalOfMerged b keys) l) =
+      .ok (encTd (sumDurations evs)) := by
+  rw [query_means_text _ env _ l hw hl]; exact total_of_merged r S E other env b keys evs out hq hm
+
+/- Non-vacuity: `RETURN = sum_durations(merge_events_by_keys(query_bucket("win"), ["app", "title"]));` is well-formed -/
+example : WFProg (totalOfMerged "win".toList ["app", "title"]) := by
+  simp [totalOfMerged, WFProg, WF, WFList, StrOK, Ident, returnName, nameQueryBucket, n]
+  decide
+
 end Pipeline
 
 /- Non-vacuity: the hypotheses are satisfiable on non-trivial inputs. The F10 witness program
